@@ -124,6 +124,25 @@ fn decoder_family(p: &mut Probes, call: &str, h: &[u8], thorough: bool, fixed_le
     }
 }
 
+/// probes of a statement-edit family speak for `base`; the cross-suite / cross-interface ones also for `cross`
+fn tag_props(out: &mut Vec<Value>, base: &str, cross: Option<&str>) {
+    for pr in out.iter_mut() {
+        let is_cross = pr["id"].as_str().map(|s| s.contains("cross-")).unwrap_or(false);
+        let honest = pr["tags"].as_array().map(|t| t.iter().any(|x| x == "expect-ok")).unwrap_or(false);
+        if let Some(t) = pr["tags"].as_array_mut() {
+            if !t.iter().any(|x| x.as_str().map(|s| s.starts_with("prop:")).unwrap_or(false)) {
+                t.push(json!(format!("prop:{}", base)));
+                if is_cross {
+                    if let Some(c) = cross {
+                        t.push(json!(format!("prop:{}", c)));
+                    }
+                }
+                let _ = honest;
+            }
+        }
+    }
+}
+
 fn replace(h: &[u8], off: usize, with: &[u8]) -> Vec<u8> {
     let mut a = h.to_vec();
     a[off..off + with.len()].copy_from_slice(with);
@@ -226,11 +245,35 @@ pub fn run_family(name: &str, thorough: bool) -> Vec<Value> {
             p.dec("modulus".into(), "message.from_bytes_be", &modulus_r(), &["noncanonical"]);
         }
         "sig_complete" => { crate::props::sig_complete::<Sha>("sha256", &mut p.out, thorough); crate::props::sig_complete::<Shake>("shake256", &mut p.out, thorough); }
-        "sig_binding" => { crate::props::sig_binding::<Sha>("sha256", &mut p.out, thorough); crate::props::sig_binding::<Shake>("shake256", &mut p.out, thorough); crate::props::cross_suite(&mut p.out); }
+        "sig_binding" => {
+            crate::props::sig_binding::<Sha>("sha256", &mut p.out, thorough);
+            crate::props::sig_binding::<Shake>("shake256", &mut p.out, thorough);
+            crate::props::cross_suite(&mut p.out);
+            // edits of the statement speak for C02; the cross-suite / cross-interface probes also for C11 (domain separation)
+            for pr in p.out.iter_mut() {
+                let cross = pr["id"].as_str().map(|s| s.contains("cross-")).unwrap_or(false);
+                if let Some(t) = pr["tags"].as_array_mut() {
+                    t.push(json!("prop:C02"));
+                    if cross {
+                        t.push(json!("prop:C11"));
+                        t.push(json!("prop:C04"));
+                    }
+                }
+            }
+        }
         "proof_complete" => { crate::props::proof_complete::<Sha>("sha256", &mut p.out, thorough); crate::props::proof_complete::<Shake>("shake256", &mut p.out, thorough); }
-        "proof_sound" => { crate::props::proof_sound::<Sha>("sha256", &mut p.out, thorough); crate::props::proof_sound::<Shake>("shake256", &mut p.out, thorough); crate::props::cross_suite(&mut p.out); }
+        "proof_sound" => {
+            crate::props::proof_sound::<Sha>("sha256", &mut p.out, thorough);
+            crate::props::proof_sound::<Shake>("shake256", &mut p.out, thorough);
+            crate::props::cross_suite(&mut p.out);
+            tag_props(&mut p.out, "C04", Some("C11"));
+        }
         "blind_complete" => { crate::props::blind_complete::<Sha>("sha256", &mut p.out, thorough); crate::props::blind_complete::<Shake>("shake256", &mut p.out, thorough); }
-        "blind_sound" => { crate::props::blind_sound::<Sha>("sha256", &mut p.out, thorough); crate::props::blind_sound::<Shake>("shake256", &mut p.out, thorough); }
+        "blind_sound" => {
+            crate::props::blind_sound::<Sha>("sha256", &mut p.out, thorough);
+            crate::props::blind_sound::<Shake>("shake256", &mut p.out, thorough);
+            tag_props(&mut p.out, "C06", Some("C11"));
+        }
         "update_history" => { crate::props::update_history::<Sha>("sha256", &mut p.out, thorough); crate::props::update_history::<Shake>("shake256", &mut p.out, thorough); }
         "generators" => { crate::props::generators::<Sha>("sha256", &mut p.out, thorough); crate::props::generators::<Shake>("shake256", &mut p.out, thorough); crate::props::generators_cross(&mut p.out); }
         "limits" => { crate::props::limits::<Sha>("sha256", &mut p.out); crate::props::limits::<Shake>("shake256", &mut p.out); }
